@@ -21,9 +21,15 @@ RULE = ('connect: client.connect(MemoryReactorClock, address) for address lists 
         'two proxies for the same object), disconnect callbacks on the connection and on proxies (some cancelled again); '
         'the transport is lost after EVERY prefix of the generated history; then late replies are delivered and the '
         'clock is run dry; oracle: every outstanding call errbacks exactly once with the loss reason, no delayed call '
-        'remains, every registered not-cancelled callback ran exactly once, nothing fires afterwards. Non-trivial = '
-        'a crash point strictly between connection and Hello reply, or >=1 call with a timer, or >=1 proxy callback; '
-        'distinct = distinct case JSON.')
+        'remains, every registered not-cancelled callback ran exactly once, nothing fires afterwards. reentrant: 1-4 '
+        'calls in flight, 0-3 connection callbacks and 0-3 proxy callbacks, where each errback / callback performs one '
+        'action while it is being notified (issue a call with or without deadline, cancel itself, cancel another '
+        'callback); every pair of actions in small scenarios (exhaustive) and random larger ones; oracle: connectionLost '
+        'does not raise, every call outstanding at the loss fails once with the reason during the notification, every '
+        'callback nobody cancelled before its turn ran exactly once, and nothing - in particular no call issued during '
+        'the notification - completes after connectionLost returned (clock run dry). Non-trivial = '
+        'a crash point strictly between connection and Hello reply, or >=1 call with a timer, or >=1 proxy callback, or '
+        'a re-entrant action; distinct = distinct case JSON.')
 ASSUMPTIONS = ['proxies are kept strongly referenced by the harness (the registry is weak by design)',
                'user callbacks neither raise nor re-enter callRemote']
 
@@ -502,6 +508,173 @@ def enum_loss(tier):
                            ['conn_cb']]}
 
 
+
+# ---------------------------------------------------------------------------
+# user code that calls back into the connection while it is being told about the loss
+
+ACTS = [['none'], ['call', None], ['call', 5], ['cancel_self'], ['cancel_conn', 0], ['cancel_conn', 1], ['cancel_conn', 2],
+        ['cancel_proxy', 0], ['cancel_proxy', 1]]
+
+
+def run_reentrant(case):
+    from txdbus import interface as I
+    try:
+        rig = N.ClientRig(unix=False)
+    except N.RigFailure as e:
+        return [Disc('reentrant.establish-failed', str(e))]
+    out = []
+    try:
+        explicit = I.DBusInterface('org.verif.Explicit', I.Method('Echo', 's', 's'), noRegister=True)
+        rig.sent_messages()
+        calls, conn_cbs, proxy_cbs, inner = [], [], [], []
+        state = {'phase': 'before'}
+        proxy = None
+        if case['proxy_cbs']:
+            res = []
+            rig.conn.getRemoteObject('org.verif.Peer', '/obj', explicit).addBoth(res.append)
+            if len(res) != 1 or not hasattr(res[0], 'notifyOnDisconnect'):
+                return [Disc('reentrant.getRemoteObject-failed', repr(res))]
+            proxy = res[0]
+
+        def act(a, me):
+            k = a[0]
+            if k == 'call':
+                rec = {'results': [], 'during': None}
+                d = rig.conn.callRemote('/o', 'Again', interface='a.b', destination='c.d', timeout=a[1])
+                if not hasattr(d, 'addBoth'):
+                    out.append(Disc('reentrant.inner-call-no-deferred', repr(d)))
+                    return
+                d.addBoth(rec['results'].append)
+                inner.append(rec)
+            elif k == 'cancel_self':
+                if me is not None and me['kind'] == 'conn' and not me['cancelled']:
+                    me['cancelled'] = True
+                    rig.conn.cancelNotifyOnDisconnect(me['fn'])
+                elif me is not None and me['kind'] == 'proxy' and not me['cancelled']:
+                    me['cancelled'] = True
+                    proxy.cancelNotifyOnDisconnect(me['fn'])
+            elif k == 'cancel_conn':
+                if conn_cbs:
+                    t = conn_cbs[a[1] % len(conn_cbs)]
+                    if not t['cancelled']:
+                        t['cancelled'] = True
+                        t['cancelled_before_run'] = not t['hits']
+                        rig.conn.cancelNotifyOnDisconnect(t['fn'])
+            elif k == 'cancel_proxy':
+                if proxy_cbs:
+                    t = proxy_cbs[a[1] % len(proxy_cbs)]
+                    if not t['cancelled']:
+                        t['cancelled'] = True
+                        t['cancelled_before_run'] = not t['hits']
+                        proxy.cancelNotifyOnDisconnect(t['fn'])
+
+        for spec in case['conn_cbs']:
+            cb = {'kind': 'conn', 'hits': [], 'cancelled': False, 'cancelled_before_run': False, 'act': spec}
+
+            def fn(conn, reason, cb=cb):
+                cb['hits'].append(state['phase'])
+                act(cb['act'], cb)
+            cb['fn'] = fn
+            rig.conn.notifyOnDisconnect(fn)
+            conn_cbs.append(cb)
+        for spec in case['proxy_cbs']:
+            cb = {'kind': 'proxy', 'hits': [], 'cancelled': False, 'cancelled_before_run': False, 'act': spec}
+
+            def fn(obj, reason, cb=cb):
+                cb['hits'].append(state['phase'])
+                act(cb['act'], cb)
+            cb['fn'] = fn
+            proxy.notifyOnDisconnect(fn)
+            proxy_cbs.append(cb)
+        for spec in case['calls']:
+            c = {'results': [], 'phases': [], 'act': spec['act']}
+            d = rig.conn.callRemote('/o', 'M', interface='a.b', destination='c.d', timeout=spec['timeout'])
+
+            def eb(f, c=c):
+                c['results'].append(f)
+                c['phases'].append(state['phase'])
+                act(c['act'], None)
+            d.addBoth(eb)
+            calls.append(c)
+        rig.sent_messages()
+        reason = N.lost_reason()
+        state['phase'] = 'during'
+        try:
+            N.close(rig.conn, reason)
+        except Exception as e:
+            out.append(Disc(exc_key(e, 'reentrant.connectionLost-raises'), exc_detail(e)))
+        state['phase'] = 'after'
+        snapshot = [len(r['results']) for r in inner]
+        try:
+            rig.clock.advance(100000)
+        except Exception as e:
+            out.append(Disc(exc_key(e, 'reentrant.late-timer-raises'), exc_detail(e)))
+        for i, c in enumerate(calls):
+            if len(c['results']) != 1:
+                out.append(Disc('reentrant.outstanding-call-%s' % ('not-failed' if not c['results'] else 'fired-twice'),
+                                'call %d of %r: results %r' % (i, case, c['results'])))
+            elif c['results'][0] is not reason or c['phases'] != ['during']:
+                out.append(Disc('reentrant.call-wrong-reason-or-moment', '%r in phase %r' % (c['results'][0], c['phases'])))
+        for kind, cbs in (('connection', conn_cbs), ('proxy', proxy_cbs)):
+            for i, cb in enumerate(cbs):
+                n = len(cb['hits'])
+                if 'after' in cb['hits']:
+                    out.append(Disc('reentrant.%s-callback-after-loss' % kind, repr(cb['hits'])))
+                elif n > 1:
+                    out.append(Disc('reentrant.%s-callback-twice' % kind, 'callback %d of %r ran %d times' % (i, case, n)))
+                elif n == 0 and not cb['cancelled_before_run']:
+                    # cancelled by nobody before its turn: it was registered when the connection went down
+                    out.append(Disc('reentrant.%s-callback-missed' % kind, 'callback %d of %r never ran' % (i, case)))
+        for i, r in enumerate(inner):
+            if len(r['results']) > 1:
+                out.append(Disc('reentrant.inner-call-fired-twice', repr(r['results'])))
+            if i >= len(snapshot):
+                out.append(Disc('reentrant.fires-after-loss', 'user code ran (and issued a call) after connectionLost had returned'))
+                continue
+            if len(r['results']) != snapshot[i]:
+                out.append(Disc('reentrant.fires-after-loss', 'a call issued during the notification completed after '
+                                                                'connectionLost had returned: %r' % (r['results'],)))
+            for x in r['results']:
+                if not hasattr(x, 'check'):
+                    out.append(Disc('reentrant.inner-call-succeeded', repr(x)))
+    except Exception as e:
+        out.append(Disc(exc_key(e, 'reentrant.exception'), exc_detail(e)))
+    finally:
+        rig.close_rig()
+    return out
+
+
+def classify_reentrant(case):
+    acts = [c['act'][0] for c in case['calls']] + [a[0] for a in case['conn_cbs']] + [a[0] for a in case['proxy_cbs']]
+    labels = sorted(set('act_' + a for a in acts if a != 'none'))
+    if any(c['act'][0] == 'call' for c in case['calls']):
+        labels.append('errback_issues_call')
+    if any(a[0] == 'call' for a in case['conn_cbs'] + case['proxy_cbs']):
+        labels.append('callback_issues_call')
+    if any(a[0].startswith('cancel') for a in case['conn_cbs'] + case['proxy_cbs']):
+        labels.append('callback_cancels_callback')
+    return any(a != 'none' for a in acts), labels
+
+
+def enum_reentrant(tier):
+    """Small scenarios, complete: two calls, two connection callbacks, two proxy callbacks, every action pair in one group."""
+    for a in ACTS:
+        for b in ACTS:
+            yield {'calls': [{'timeout': 5, 'act': a}, {'timeout': None, 'act': b}], 'conn_cbs': [['none'], ['none']],
+                   'proxy_cbs': [['none']]}
+            yield {'calls': [{'timeout': 7, 'act': ['none']}], 'conn_cbs': [a, b, ['none']], 'proxy_cbs': [['none']]}
+            yield {'calls': [{'timeout': None, 'act': ['none']}], 'conn_cbs': [['none']], 'proxy_cbs': [a, b, ['none']]}
+
+
+@st.composite
+def reentrant_case(draw, tier):
+    act = st.sampled_from(ACTS)
+    return {'calls': [{'timeout': draw(st.sampled_from([None, 3, 9])), 'act': draw(act)}
+                      for _ in range(draw(st.integers(1, 4)))],
+            'conn_cbs': [draw(act) for _ in range(draw(st.integers(0, 3)))],
+            'proxy_cbs': [draw(act) for _ in range(draw(st.integers(0, 3)))]}
+
+
 SUBCHECKS = [
     Subcheck('connect', run_connect, classify_connect, enumerate=enum_connect, shards={'quick': 4, 'thorough': 8},
              exhaustive_note='address lists x every reachability subset x {ideal, rejected, hello-error, garbage} scripts; '
@@ -509,6 +682,10 @@ SUBCHECKS = [
     Subcheck('loss', run_loss, classify_loss, strategy=lambda tier: loss_case(tier),
              n={'quick': 120, 'thorough': 1200},
              exhaustive_note='per generated history: the transport is lost after every prefix'),
+    Subcheck('reentrant', run_reentrant, classify_reentrant, strategy=lambda tier: reentrant_case(tier),
+             enumerate=enum_reentrant, n={'quick': 150, 'thorough': 1500},
+             exhaustive_note='two calls / three connection callbacks / three proxy callbacks x every pair of re-entrant '
+                             'actions (issue a call, cancel itself, cancel another callback)'),
     Subcheck('loss_fixed', run_loss, classify_loss, enumerate=enum_loss, shards={'quick': 1, 'thorough': 1},
              exhaustive_note='fixed family: each proxy mode x callbacks x loss after every prefix'),
 ]
